@@ -316,13 +316,14 @@ func (ex *Exec) assert(c Bool, label string) {
 	wv, ok := ex.tb.Eval(c.T, ex.witness)
 	if ok && wv == 0 {
 		ex.violation(label, "", ex.witness)
-		panic(pathEnd{"violation"})
+		ex.assume(c) // continue with the inputs for which the assertion holds
+		return
 	}
 	res, m := ex.query(ex.tb.Not(c.T), true)
 	switch res {
 	case "sat":
 		ex.violation(label, "", m)
-		panic(pathEnd{"violation"})
+		ex.assume(c)
 	case "unsat":
 		ex.addPC(c.T)
 	}
